@@ -439,6 +439,21 @@ where
     None
 }
 
+/// Verification facade: see `crate::verif`.
+#[cfg(feature = "verif")]
+pub(crate) fn verif_select_nodes_for_gossip<R>(
+    rng: &mut R,
+    peer_nodes: HashSet<SocketAddr>,
+    live_nodes: HashSet<SocketAddr>,
+    dead_nodes: HashSet<SocketAddr>,
+    seed_nodes: HashSet<SocketAddr>,
+) -> (Vec<SocketAddr>, Option<SocketAddr>, Option<SocketAddr>)
+where
+    R: Rng + ?Sized,
+{
+    select_nodes_for_gossip(rng, peer_nodes, live_nodes, dead_nodes, seed_nodes)
+}
+
 #[cfg(test)]
 mod tests {
     use std::collections::BTreeMap;
